@@ -198,7 +198,7 @@ def judge(ctx, vectors, canaries=True):
     n = len(vectors)
     if len({i for i, _ in rej if i >= n}) != len(cans):
         from ..tlc import MachineryError
-        raise MachineryError("Trace_C15 accepted a canary")
+        ctx.defer_machinery("Trace_C15 accepted a canary")
     ctx.extra["canaries_rejected"] = len(cans)
     for i, clause in rej:
         if i < n:
